@@ -77,6 +77,20 @@ def make_local_grid(name, a, b, boundary, integrator="default"):
         return G.BSplineGrid(a, b, p=3)
     if name == "leja":
         return G.LejaGrid(a, b)
+    if name.startswith("mixed"):
+        # MixedGrid of 1D grids with per-dimension families / boundary flags ("mixed:tT,cT,tF": trapezoidal with boundary,
+        # Clenshaw-Curtis, trapezoidal without boundary points, ...)
+        parts = (name.split(":")[1].split(",") * len(a))[: len(a)]
+        grids = []
+        for d, q in enumerate(parts):
+            fam, flag = q[0], q[1] == "T"
+            if fam == "t":
+                grids.append(G.TrapezoidalGrid1D(a=a[d], b=b[d], boundary=flag))
+            elif fam == "c":
+                grids.append(G.ClenshawCurtisGrid1D(a=a[d], b=b[d], boundary=True))
+            else:
+                grids.append(G.GaussLegendreGrid1D(a=a[d], b=b[d], boundary=True))
+        return G.MixedGrid(a=a, b=b, grids=grids)
     raise ValueError(name)
 
 
@@ -109,15 +123,15 @@ def run_standard(case):
         tot += cg.coefficient * t
         mag += abs(cg.coefficient) * m
     if not _close(result, tot, mag):
-        out.bad(sub + "/result-not-sum-of-components/" + case["grid"], "reported %s independent %s" % (result, tot))
+        out.bad(sub + "/result-not-sum-of-components/" + case["grid"].split(":")[0], "reported %s independent %s" % (result, tot))
     if nodal:
         with drive.quiet():
             P, W = combi.get_points_and_weights()
         t, m = _wsum(comps, [tuple(float(x) for x in p) for p in P], W)
         if not _close(result, t, m):
-            out.bad(sub + "/points-and-weights-do-not-reproduce-result/" + case["grid"], "reported %s via weights %s" % (result, t))
+            out.bad(sub + "/points-and-weights-do-not-reproduce-result/" + case["grid"].split(":")[0], "reported %s via weights %s" % (result, t))
     out.nontrivial = dim >= 2 and case["lmax"] > case["lmin"]
-    out.cls("grid=" + case["grid"], "d=%d" % dim, "integrator=" + case.get("integrator", "default"), _scale_class(case))
+    out.cls("grid=" + case["grid"].split(":")[0], "d=%d" % dim, "integrator=" + case.get("integrator", "default"), _scale_class(case))
     return out
 
 
@@ -336,7 +350,9 @@ def run_adaptive(case):
     if kind == "dw":
         out.cls("dwgrid=" + case.get("dwgrid", "trapezoidal"))
     else:
-        out.cls("esgrid=" + case.get("esgrid", "trapezoidal"), "auto=%s" % case.get("auto"))
+        out.cls("esgrid=" + case.get("esgrid", "trapezoidal").split(":")[0], "auto=%s" % case.get("auto"))
+        if ":" in case.get("esgrid", "") and len(set(q[1] for q in case["esgrid"].split(":")[1].split(","))) > 1:
+            out.cls("mixed-grid-with-different-boundary-flags")
     out.info = dict(max_steps=st_["steps"], max_points=int(res[6][-1]))
     return out
 
@@ -347,9 +363,11 @@ def standard_strategy(tier):
     def s(draw):
         dim = draw(st.integers(1, 3))
         grid = draw(st.sampled_from(["trapezoidal", "trapezoidal", "clenshawcurtis", "gausslegendre", "simpson", "lagrange",
-                                     "bspline", "leja"]))
+                                     "bspline", "leja", "mixed"]))
+        if grid == "mixed":
+            grid = "mixed:" + ",".join(draw(st.lists(st.sampled_from(["tT", "tF", "tT", "tF", "cT", "gT"]), min_size=dim, max_size=dim)))
         lmin = draw(st.integers(1, 2))
-        span = 3 if grid in ("trapezoidal", "simpson") else 2
+        span = 3 if grid in ("trapezoidal", "simpson") or grid.startswith("mixed") else 2
         lmax = lmin + draw(st.integers(0, span if dim < 3 else 2))
         a, b = drive.st_box(draw, dim)
         c = dict(dim=dim, grid=grid, lmin=lmin, lmax=lmax, a=a, b=b,
@@ -401,7 +419,9 @@ def es_strategy(tier):
         c["nout"] = draw(st.integers(1, 2))
         c["extra"] = draw(st.sampled_from([0, 0, 1, 20, 80]))
         c["maxev"] = min(c["maxev"], 700)
-        c["esgrid"] = draw(st.sampled_from(["trapezoidal", "trapezoidal", "clenshawcurtis", "gausslegendre", "simpson"]))
+        c["esgrid"] = draw(st.sampled_from(["trapezoidal", "trapezoidal", "clenshawcurtis", "gausslegendre", "simpson", "mixed", "mixed"]))
+        if c["esgrid"] == "mixed":
+            c["esgrid"] = "mixed:" + ",".join(draw(st.lists(st.sampled_from(["tT", "tF", "tT", "tF"]), min_size=c["dim"], max_size=c["dim"])))
         if c["esgrid"] != "trapezoidal":
             # split_single_dim with a non-trapezoidal grid trips the library's own assertion in get_sum_sibling_value (it
             # expects 2 or 2^d evaluated children); the statement does not quantify over that combination
